@@ -786,4 +786,33 @@ func c19Atomic(a *ChildArgs, r *rand.Rand, avoid map[string]bool, dir, mode stri
 			}
 		}
 	}
+	// the j-th call of each kind fails with an error the program can see (disk full, I/O error): the file is again
+	// either the original or the new content, and a rewrite that did not happen is not reported as success
+	trace := filepath.Join(dir, ".strace.out")
+	for _, sc := range []struct{ calls, errno string }{{"write", "ENOSPC"}, {"rename,renameat,renameat2", "EIO"}, {"fsync,fdatasync", "EIO"}, {"chmod,fchmod,fchmodat", "EPERM"}, {"openat", "ENOSPC"}} {
+		for j := 1; j <= 40; j++ {
+			c19Clean(dir)
+			write()
+			os.Remove(trace)
+			run := c19Exec(dir, []string{"/usr/bin/strace", "-f", "-o", trace, "-e", "trace=" + sc.calls, "-e", fmt.Sprintf("inject=%s:error=%s:when=%d", sc.calls, sc.errno, j)}, args...)
+			if run.timedOut {
+				a.Rec.Inconclusive("C19/kill/timeout", "run exceeded the watchdog")
+				return
+			}
+			tb, _ := os.ReadFile(trace)
+			os.Remove(trace)
+			if !strings.Contains(string(tb), "(INJECTED)") {
+				break // no j-th call of this kind
+			}
+			point := fmt.Sprintf("%s on %s #%d", sc.errno, sc.calls, j)
+			if !judge(point, run) {
+				return
+			}
+			if got := c19Snapshot(dir, files)[f.name].content; got == f.content && run.rc == 0 {
+				a.Rec.Viol("C19/"+mode+"/"+label+"/success-without-rewrite/"+strings.Split(sc.calls, ",")[0], "in-place rewriting replaces a file only when processing of that file succeeded (and a failed rewrite is not a success)",
+					fmt.Sprintf("fault %s: the file still holds the original, the command exits 0", point), map[string]interface{}{"args": args, "original": f.content, "fault": point, "stdout": trunc(run.out, 300), "stderr": trunc(run.err, 300)})
+				return
+			}
+		}
+	}
 }
